@@ -230,4 +230,9 @@ Rounds(tmpl, ents, n) ==
     IF ~\E j \in 1..Len(ents) : IsInst(ents[j]) THEN [ents |-> ents, left |-> n]
     ELSE IF n = 0 THEN [ents |-> ents, left |-> 0 - 1]
     ELSE Rounds(tmpl, ExpandSeq(tmpl, ents), n - 1)
+\* the files collapse_all has to read (each once: they are cached by name)
+RECURSIVE Visited(_, _, _)
+Visited(tmpl, ents, n) ==
+    LET fs == {ents[j].file : j \in {k \in 1..Len(ents) : IsInst(ents[k])}}
+    IN IF fs = {} \/ n = 0 THEN {} ELSE fs \cup Visited(tmpl, ExpandSeq(tmpl, ents), n - 1)
 =============================================================================
